@@ -55,8 +55,8 @@ func VerifLemma_C13A_ValidateExact() {
 	}
 }
 
-// VerifLemma_C13A_Component: ValidatePathComponent(c)=nil => c is non-empty, has no '/' and no "..", hence
-// Join(root, c) is a direct child of root for a validated root; plain names are accepted.
+// VerifLemma_C13A_Component: ValidatePathComponent(c)=nil => c is non-empty, has no '/' and no ".."; plain names
+// are accepted. All 256 byte values (url.PathEscape forks ~20 ways per byte, hence the small N).
 func VerifLemma_C13A_Component() {
 	c := verifNondetString(verifParam("N"))
 	err := ValidatePathComponent(c)
@@ -75,6 +75,10 @@ func VerifLemma_C13A_Component() {
 		return
 	}
 	verifCover("accepted component")
+	vcCheckComponentShape(c)
+}
+
+func vcCheckComponentShape(c string) {
 	verifAssert(len(c) > 0, "accepted component is non-empty")
 	for i := 0; i < len(c); i++ {
 		verifAssert(c[i] != '/', "accepted component has no slash")
@@ -82,6 +86,26 @@ func VerifLemma_C13A_Component() {
 			verifAssert(!(c[i] == '.' && c[i+1] == '.'), "accepted component has no ..")
 		}
 	}
+}
+
+// VerifLemma_C13A_ComponentJoin: longer components over the alphabet that matters for containment
+// ('a', '.', '/', '%', '~', ' ', 0x00, 0xff): an accepted component joined onto a validated root is a strict
+// descendant of that root (or the root itself for the component "."), never a sibling or ancestor.
+func VerifLemma_C13A_ComponentJoin() {
+	const alpha = "a./%~ \x00\xff"
+	n := verifNondetChoice(verifParam("N") + 1)
+	b := make([]byte, n)
+	for i := range b {
+		b[i] = alpha[verifNondetChoice(len(alpha))]
+	}
+	c := string(b)
+	err := ValidatePathComponent(c)
+	verifCover("checked")
+	if err != nil {
+		return
+	}
+	verifCover("accepted component")
+	vcCheckComponentShape(c)
 	root := vcNormalizedValidated(verifParam("ROOT"))
 	j := Join(root, c)
 	if c == "." {
